@@ -299,6 +299,8 @@ def run_check(prop, tier, seed, repo, stages, level, rule, assumptions,
                         merged["keys"][k] = d
                 if "sample" in o and len(merged["samples"]) < 6:
                     merged["samples"].append(o["sample"])
+                if "ms" in o:
+                    merged.setdefault("slow", []).append((o["ms"], r.descs.get(o.get("case"), "")))
             for k, v in r.counts.items():
                 merged["counts"][k] = merged["counts"].get(k, 0) + v
             for k, v in r.ubsan_obs.items():
@@ -375,6 +377,7 @@ def run_check(prop, tier, seed, repo, stages, level, rule, assumptions,
                ubsan_value_class_observations=merged["ubsan"],
                stages=[{k: v for k, v in st.items() if k not in ("binary", "args")} for st in merged["stages"]],
                repo=repo, repo_tree_hash=build.repo_tree_hash(repo),
+               slowest_cases_ms=sorted(merged.get("slow", []), reverse=True)[:5],
                known_findings_matched=sorted(known_hit.keys()),
                new_violation_keys=sorted(new_by_key.keys()))
     if extra_cov:
